@@ -51,6 +51,7 @@ func Run(r *core.Run) {
 	selfCheckReference(r)
 	runVectors(r)
 	runDerivation(r, thorough)
+	runHistories(r, thorough)
 	runSigning(r, thorough)
 
 	r.Assume("I_L >= n, I_L = 0 and 'child is the point at infinity' cannot be reached by enumeration (probability <= 2^-127 per step); 'invalid intermediate keys are refused' is covered only by an off-curve parent key")
@@ -58,14 +59,14 @@ func Run(r *core.Run) {
 	r.Assume("each derivation starts from a fresh deep copy (re-parsed key files) of the stored key data, as UpdatePublicKeyAndAdjustBigXj rewrites the slice it is given in place by design")
 
 	ev := int(r.Get("cases_derive_hierarchy") + r.Get("cases_derive_step") + r.Get("cases_refused") +
-		r.Get("cases_vector") + r.Get("cases_signing_runs") + r.Get("cases_roundtrip"))
+		r.Get("cases_vector") + r.Get("cases_history_ops") + r.Get("cases_signing_runs") + r.Get("cases_roundtrip"))
 	r.Set("evaluations", ev)
 	r.Set("distinct_nontrivial", r.NDistinct("nontrivial"))
 	r.Set("distinct_child_keys", r.NDistinct("childkeys"))
 	r.Set("distinct_signatures", r.NDistinct("signatures"))
 	r.Set("rule", "derivation: every (parent, path) with parent in the listed parent set and path in all sequences of length 0..L over {0,1,2^31-1} "+
 		"(plus length 5 over {0,1} in thorough), every single-position replacement by 2^31 / 2^32-1, depth parents 253/254/255, an off-curve parent, "+
-		"all non-hardened segments of the BIP32 vector chains; signing: paths x (t+1)-subsets and all ordered pairs of paths per subset. "+
+		"all non-hardened segments of the BIP32 vector chains; histories: every sequence of <= 3 operations (derive along 3 paths and serialise the result, serialise the parent, one derivation step) on ONE parent object, parsed from its xpub or built from fields; signing: paths x (t+1)-subsets and all ordered pairs of paths per subset. "+
 		"A case is one canonical string 'kind|parent|path[|subset]'; non-trivial = path length >= 1 (a derivation or refusal actually happened) or a signing run; "+
 		"distinct_child_keys counts distinct derived serialised keys (no two cases collapsed)")
 }
